@@ -39,6 +39,7 @@ def units(tier):
     for i in range(4):
         us.append(("alt", i))
     us.append(("alt_refused",))
+    us.append(("alt_forms",))
     return us
 
 
@@ -222,6 +223,38 @@ def run_unit(unit, ctx):
                 check_alt(ctx, parser, "P%04d-%02d-%02dT12:30:15,5" % (y, mo, d),
                           {"years": y, "months": mo, "days": d, "hours": 12, "minutes": 30, "seconds": 15.5},
                           {"form": "decimal_seconds"})
+    elif u == "alt_forms":
+        # the alternative notation over M's whole table of time forms (incl. decimal hours and minutes)
+        from isomc import mtext
+        from fractions import Fraction as F
+        dforms, tforms = mtext.date_forms(), mtext.time_forms()
+        for dname in ("cal_ext", "cal_basic", "ord_ext", "ord_basic"):
+            dtoks, dkind, cls, rep = dforms[dname]
+            for dv in ({"year": 4, "month": 2, "day": 3, "doy": 78}, {"year": 0, "month": 0, "day": 0, "doy": 0},
+                       {"year": 9999, "month": 12, "day": 31, "doy": 366}):
+                for tname, (ttoks, tkind, prec) in tforms.items():
+                    if not mtext.compatible(dkind, tkind):
+                        continue
+                    for tv in ({"h": 10, "m": 30, "s": 15}, {"h": 0, "m": 0, "s": 0}, {"h": 23, "m": 59, "s": 59}):
+                        for fr in (("5", "25", "0", "125") if prec in ("fh", "fm", "fs") else (None,)):
+                            f = dict(tv)
+                            if fr:
+                                f["frac"] = fr
+                            text = "P" + mtext.render(dtoks, dv) + "T" + mtext.render(ttoks, f)
+                            want = {"years": dv["year"]}
+                            if rep == "cal":
+                                want.update(months=dv["month"], days=dv["day"])
+                            else:
+                                want["days"] = dv["doy"]
+                            frac = F(int(fr), 10 ** len(fr)) if fr else F(0)
+                            want["hours"] = tv["h"] + (frac if prec == "fh" else 0)
+                            if "mm" in ttoks:
+                                want["minutes"] = tv["m"] + (frac if prec == "fm" else 0)
+                            if "ss" in ttoks:
+                                want["seconds"] = tv["s"] + (frac if prec == "fs" else 0)
+                            want = {k: (float(v) if isinstance(v, F) and v.denominator != 1 else int(v)) for k, v in want.items()}
+                            ctx.state_count += 1
+                            check_alt(ctx, parser, text, want, {"form": dname + "|" + tname})
     elif u == "alt_refused":
         from metomi.isodatetime.exceptions import ISO8601SyntaxError
         for text in ("P0001-W02-3T04:05:06", "P0001W023T040506", "-P0001-02-03T04:05:06", "-P00010203T040506",
